@@ -46,6 +46,15 @@ CHECKS = {
              "gathered concurrent calls are validated by TLC against the trace spec; non-conforming runs are judged by the "
              "observation spec.",
         note="Trusted: TLC; exactness of float arithmetic on the dyadic grid used; the virtual clock patch of time.monotonic."),
+    "C09": dict(
+        engine="Acl", design="8 C09, 5.3, Appendix L",
+        text="TLC enumerates every (policy, address) pair over a 2-bit space per family (every prefix length, lists "
+             "absent/empty/present, default on/off; thorough: two entries per list) and checks AsConfigured; each case is "
+             "embedded at several bit offsets into real IPv4/IPv6 addresses and decided by the real AccessControl and by "
+             "ServerConfig.from_toml -> get_access_control_config (thorough: also the chain the real start_server assembles, "
+             "behind the real protocol); random policies with up to 4 entries per list are judged by TLC against Admit.",
+        note="Trusted: TLC; the embedding arithmetic of checks/c09.py (model bits -> real address bits); allow_list=[] is "
+             "left undecided (grey)."),
 }
 
 ORDER = ["C01", "C02", "C03", "C04", "C05", "C06", "C07", "C08", "C09", "C10", "C11", "C12", "C13", "C14", "C15",
